@@ -382,8 +382,8 @@ def partitions(run, F):
         npts = 0
         for sort in (False, True):
             for rev in (False, True):
-                for n in range(5):
-                    for k in range(4):
+                for n in range(9 if run.tier == 'thorough' else 5):
+                    for k in range(8 if run.tier == 'thorough' else 4):
                         npts += 1
                         rows = dtree.select_rows(t, {'self.titer().count_valid()': n, 'kth': k, 'sort': sort, 'rev': rev})
                         if rows is None or len(rows) != 1:
